@@ -1787,3 +1787,204 @@ func c07FieldOrigin(c *Ctx, info *types.Info, body *ast.BlockStmt, o types.Objec
 	})
 	return good && defs > 0, origin
 }
+
+// ---------------------------------------------------------------- round 6
+
+// c10TouchIndex (C10-a/touch-index): a stage whose value changes without
+// reading the match ({time live}, {time delta}) keeps itself dynamic by
+// *touching* its context: a lookup whose result is thrown away. The wrapping
+// contexts (sub-context of @map/@filter/@reduce/@for, the lazy argument
+// context of funcs-file functions) answer non-negative indexes themselves
+// ({0} is the current element / the first argument) and forward only negative
+// ones to the enclosing context (C10-a/touch-propagates). A touch therefore
+// has to use a negative constant index, or it never reaches the probe from
+// inside such a wrapper and the stage is folded to a constant there.
+func c10TouchIndex(c *Ctx, r *Report, rule string) {
+	n := 0
+	for _, fi := range c.AllFuncDecls("rare/pkg/expressions") {
+		info := fi.Pkg.TypesInfo
+		ast.Inspect(fi.Decl.Body, func(x ast.Node) bool {
+			es, ok := x.(*ast.ExprStmt)
+			if !ok {
+				return true
+			}
+			ce, ok := es.X.(*ast.CallExpr)
+			if !ok || len(ce.Args) != 1 {
+				return true
+			}
+			se, ok := ce.Fun.(*ast.SelectorExpr)
+			if !ok || se.Sel.Name != "GetMatch" || !isKeyBuilderContext(info.TypeOf(se.X)) {
+				return true
+			}
+			n++
+			k, isK := constInt(info, ce.Args[0])
+			r.Check(isK && k < 0, rule, fi.Name, exprStr(ce), c.Pos(ce.Pos()), "constant: the touch uses a negative index, which every wrapping context forwards to the enclosing one",
+				"a context touch (a lookup whose result is discarded) uses the index "+exprStr(ce.Args[0])+": the sub-contexts of @map/@filter/@reduce/@for and of funcs-file functions answer non-negative indexes themselves, so inside them the touch never reaches the optimiser's probe and {time live} / {time delta} are frozen at compile time")
+			return true
+		})
+	}
+	r.Floor(rule, 1, "the touches of time live and time delta")
+}
+
+// c13TimePrecision (C13-g/time-precision): the date order is chronological:
+// two keys that parse to different instants are ordered by those instants.
+// time.Time.Unix() (and UnixMilli / UnixMicro) round the instant down, so keys
+// within the same second (millisecond, ..) compare equal in both directions
+// and fall back to arrival / map order. In the sorting package instants are
+// compared as time.Time (Before / After / Compare / Equal) or through
+// UnixNano; any coarser projection is reported.
+func c13TimePrecision(c *Ctx, r *Report, rule string) {
+	n := 0
+	for _, fi := range c.AllFuncDecls(sortingPkg) {
+		info := fi.Pkg.TypesInfo
+		ast.Inspect(fi.Decl.Body, func(x ast.Node) bool {
+			ce, ok := x.(*ast.CallExpr)
+			if !ok {
+				return true
+			}
+			switch nm := calleeName(info, ce); nm {
+			case "(time.Time).Before", "(time.Time).After", "(time.Time).Compare", "(time.Time).Equal", "(time.Time).UnixNano":
+				n++
+				r.OK(rule, fi.Name, exprStr(ce), c.Pos(ce.Pos()), "precision: instants are compared at full precision")
+			case "(time.Time).Unix", "(time.Time).UnixMilli", "(time.Time).UnixMicro", "(time.Time).Truncate", "(time.Time).Round", "(time.Time).YearDay", "(time.Time).Date":
+				n++
+				r.Bad(rule, fi.Name, exprStr(ce), c.Pos(ce.Pos()), "a parsed date is projected with "+strings.TrimPrefix(nm, "(time.Time).")+" before it is compared: keys that differ by less than that unit compare equal in both directions, so the date order of such rows is not chronological and depends on arrival / map order (and :desc is not the mirror of :asc)")
+			}
+			return true
+		})
+	}
+	r.Floor(rule, 1, "ByDate's Before")
+}
+
+// c07SampleKeepsCells (C07-a/sample-keeps-cells): presence of a cell, row or
+// column is state of its own - Trim decides "row left empty" by the number of
+// cells, renderers list the keys that exist - so sampling only ever adds:
+// no delete() on an aggregator's maps outside the trimming methods.
+func c07SampleKeepsCells(c *Ctx, r *Report, rule string) {
+	n, bad := 0, 0
+	for _, fi := range c.AllFuncDecls(aggPkg) {
+		if fi.Pkg.PkgPath != aggPkg || fi.Decl.Recv == nil {
+			continue
+		}
+		info := fi.Pkg.TypesInfo
+		ast.Inspect(fi.Decl.Body, func(x ast.Node) bool {
+			ce, ok := x.(*ast.CallExpr)
+			if !ok || calleeName(info, ce) != "builtin.delete" {
+				return true
+			}
+			n++
+			// the trimming methods: Trim itself, or a private method only Trim calls
+			isTrim := strings.HasPrefix(fi.Decl.Name.Name, "Trim") || strings.HasPrefix(fi.Decl.Name.Name, "trim")
+			if !isTrim {
+				if owner := privateOwner(fi.Pkg, fi.Decl); owner != nil && strings.HasPrefix(owner.Name.Name, "Trim") {
+					isTrim = true
+				}
+			}
+			if isTrim {
+				r.OK(rule, fi.Name, exprStr(ce), c.Pos(ce.Pos()), "who-may-delete: cells, rows and columns are only removed by trimming")
+			} else {
+				bad++
+				r.Bad(rule, fi.Name, exprStr(ce), c.Pos(ce.Pos()), "an aggregator removes an entry outside Trim: whether a cell exists is state of its own (Trim drops a row when it has no cells left, renderers list existing keys), so a sample that removes a cell makes a later Trim delete rows its predicate never selected")
+			}
+			return true
+		})
+	}
+	r.Floor(rule, 2, "the deletes of TableAggregator.Trim")
+}
+
+// c02MatcherVerbatim (C02-i/matcher-verbatim): the regexp matcher wrapper
+// embeds *regexp.Regexp and publishes the name table of that expression. A
+// method of the wrapper that shadows one of the promoted matching methods
+// must hand back what the embedded method returns for the same argument:
+// anything else (a literal fast path that returns only the overall match,
+// say) drops capture groups that did participate while the name table still
+// announces them.
+func c02MatcherVerbatim(c *Ctx, r *Report, rule string) {
+	const pkg = "rare/pkg/matchers/fastregex"
+	n := 0
+	for _, fi := range c.AllFuncDecls(pkg) {
+		fd := fi.Decl
+		if fd.Recv == nil || len(fd.Recv.List) != 1 || fd.Body == nil {
+			continue
+		}
+		info := fi.Pkg.TypesInfo
+		rt := info.TypeOf(fd.Recv.List[0].Type)
+		if p, ok := rt.(*types.Pointer); ok {
+			rt = p.Elem()
+		}
+		st, _ := rt.Underlying().(*types.Struct)
+		embeds := false
+		if st != nil {
+			for i := 0; i < st.NumFields(); i++ {
+				if f := st.Field(i); f.Embedded() {
+					t := f.Type()
+					if p, ok := t.(*types.Pointer); ok {
+						t = p.Elem()
+					}
+					if isNamed(t, "regexp", "Regexp") {
+						embeds = true
+					}
+				}
+			}
+		}
+		if !embeds {
+			continue
+		}
+		// does regexp.Regexp have a method of this name?
+		var promoted *types.Func
+		if reObj := fi.Pkg.Types.Imports(); reObj != nil {
+			for _, imp := range reObj {
+				if imp.Path() == "regexp" {
+					if tn, ok := imp.Scope().Lookup("Regexp").(*types.TypeName); ok {
+						ms := types.NewMethodSet(types.NewPointer(tn.Type()))
+						if sel := ms.Lookup(nil, fd.Name.Name); sel != nil {
+							promoted, _ = sel.Obj().(*types.Func)
+						}
+					}
+				}
+			}
+		}
+		if promoted == nil {
+			continue
+		}
+		n++
+		var params []types.Object
+		if fd.Type.Params != nil {
+			for _, f := range fd.Type.Params.List {
+				for _, nm := range f.Names {
+					params = append(params, info.Defs[nm])
+				}
+			}
+		}
+		problem := ""
+		nRet := 0
+		inspectNoLit(fd.Body, func(x ast.Node) bool {
+			rs, ok := x.(*ast.ReturnStmt)
+			if !ok {
+				return true
+			}
+			nRet++
+			good := false
+			if len(rs.Results) == 1 {
+				if ce, ok := ast.Unparen(rs.Results[0]).(*ast.CallExpr); ok && calleeFunc(info, ce) == promoted && len(ce.Args) == len(params) {
+					good = true
+					for i, a := range ce.Args {
+						if identObj(info, a) != params[i] {
+							good = false
+						}
+					}
+				}
+			}
+			if !good && problem == "" {
+				problem = "returns " + exprStr(rs.Results[0]) + " at " + c.Pos(rs.Pos())
+			}
+			return true
+		})
+		if nRet == 0 {
+			problem = "has no return"
+		}
+		r.Check(problem == "", rule, fi.Name, "shadows (*regexp.Regexp)."+fd.Name.Name, c.Pos(fd.Pos()), "flow: every return is the embedded method's result for the same argument",
+			"the matcher wrapper shadows the promoted regexp method and "+problem+" instead of the embedded method's result: capture groups that participated can be missing from the indices while the published name table still lists them, so {N} / {name} / {@} read empty")
+	}
+	_ = n // "for every" rule: the wrapper shadows nothing on the pinned tree; seed C02-m17 is the positive example
+}
